@@ -98,6 +98,18 @@ def _c17_c06():
         errors.append("anchor missing: the two `if s.len() > N` base58 guards in src/address.rs")
     else:
         defN("BASE58_MAX_LEN", int(guards[0]), "src/address.rs: strings longer than this are not base58-decoded")
+    # the witness-program length test of Address::from_bech32 after the blinding key was split off (repair of finding F5, commit 86be616).
+    # In a checkout without the repair the anchor is absent: the bounds of the repaired code are emitted nevertheless (the model is the
+    # repaired code) and a note is printed; the missing test then shows up as model/implementation disagreement and as a predicate
+    # failure on the F5 inputs, not as a translator error that would stop every other property's check.
+    m = re.search(r"if\s+program\.len\(\)\s*<\s*(\d+)\s*\|\|\s*program\.len\(\)\s*>\s*(\d+)\s*\{\s*return\s+Err\(\s*AddressError::InvalidWitnessProgramLength", a)
+    if m:
+        defN("ADDR_PROG_LEN_MIN", int(m.group(1)), "src/address.rs from_bech32: program.len() < MIN || program.len() > MAX is rejected")
+        defN("ADDR_PROG_LEN_MAX", int(m.group(2)))
+    else:
+        print("translator: note: src/address.rs from_bech32 has no `program.len() < .. || program.len() > ..` test (finding F5 unrepaired); using 2 / 40")
+        defN("ADDR_PROG_LEN_MIN", 2, "anchor absent in this checkout (F5 unrepaired): bounds of commit 86be616")
+        defN("ADDR_PROG_LEN_MAX", 40)
     lines.append("")
 
 
